@@ -25,6 +25,12 @@ def g_doc():
 def run(ctx):
     rng = ctx.rng
     nt = lambda c, i: True
+    _fail = ctx.fail
+
+    def fail(key, *a, **kw):
+        ctx.count("fail_" + key)
+        if not key.startswith("G-") or ctx.dist["fail_" + key] <= 5:
+            _fail(key, *a, **kw)
     base_cases = []     # (kind-args-prefix, suffix args after path) for the clean run
     specs = []
     n = ctx.scale(160, 1200)
@@ -86,18 +92,18 @@ def run(ctx):
     for k, (ref, idx, kindf, ncalls, fam) in enumerate(fmeta):
         o = impl[b0 + k]
         if o in ("PANIC", "ABORT", "HANG"):
-            ctx.fail("fault-panic", "fault at read call %d (%s): %s" % (idx, kindf, o), [fcases[k]], [o], "ERR:io")
+            fail("fault-panic", "fault at read call %d (%s): %s" % (idx, kindf, o), [fcases[k]], [o], "ERR:io")
         elif not o.startswith("ERR"):
             if o != ref:
                 key = "G-bin-stream-discarded-read" if fam == "bin" else "fault-wrong-value"
-                ctx.fail(key, "fault at read call %d (%s) is swallowed: the call returns %s, the fault-free run returns %s" % (idx, kindf, o[:150], ref[:150]), [fcases[k]], [o], ref)
+                fail(key, "fault at read call %d (%s) is swallowed: the call returns %s, the fault-free run returns %s" % (idx, kindf, o[:150], ref[:150]), [fcases[k]], [o], ref)
             elif kindf == "P" and idx < ncalls - 1:
                 # a persistent fault strictly before the last read call of a clean run must surface, unless the
                 # remaining reads only probe for end of data
                 ctx.count("persistent_ok_same_value")
         elif o != "ERR:io" and o != ref:
             key = "G-bin-stream-discarded-read" if fam == "bin" else "fault-other-error"
-            ctx.fail(key, "fault at read call %d (%s) surfaces as %s instead of an I/O error (fault-free: %s)" % (idx, kindf, o, ref[:100]), [fcases[k]], [o], "ERR:io")
+            fail(key, "fault at read call %d (%s) surfaces as %s instead of an I/O error (fault-free: %s)" % (idx, kindf, o, ref[:100]), [fcases[k]], [o], "ERR:io")
 
 
 def search(ctx):
